@@ -107,3 +107,96 @@ func init() {
 		c.R.Count("capreconnect/"+in["rounds"], true, "cap-reconnect")
 	}
 }
+
+// C08, "message tags are put on the wire only while message-tags is enabled": the decision belongs to the moment a line is
+// WRITTEN. A tagged event waits in the send queue behind a blocked write while the server deletes the capability; when the
+// write side drains, the queued line must go out without its tags.
+func init() {
+	runners["tagsqueue"] = func(c *Ctx, in map[string]string) {
+		hin := hexIn(in)
+		cl := girc.New(girc.Config{Server: "irc.example.org", Port: 6667, Nick: "me", User: "me", Name: "me", AllowFlood: true})
+		cli, srv := net.Pipe()
+		ret := make(chan error, 1)
+		go func() { ret <- cl.MockConnect(cli) }()
+		rd := bufio.NewReader(srv)
+		write := func(l string) {
+			srv.SetWriteDeadline(time.Now().Add(2 * time.Second))
+			srv.Write([]byte(l + "\r\n"))
+		}
+		readUntil := func(prefix string) bool {
+			for {
+				srv.SetReadDeadline(time.Now().Add(3 * time.Second))
+				l, err := rd.ReadString('\n')
+				if err != nil {
+					return false
+				}
+				if strings.HasPrefix(l, prefix) {
+					return true
+				}
+			}
+		}
+		defer func() {
+			cl.Close()
+			srv.Close()
+			select {
+			case <-ret:
+			case <-time.After(5 * time.Second):
+			}
+		}()
+		if !readUntil("CAP LS") {
+			c.R.Mismatch("tagsqueue.setup", hin, "no CAP LS", "")
+			return
+		}
+		write(":srv CAP * LS :message-tags multi-prefix")
+		if !readUntil("CAP REQ") {
+			c.R.Mismatch("tagsqueue.setup", hin, "no CAP REQ", "")
+			return
+		}
+		write(":srv CAP * ACK :message-tags multi-prefix")
+		if !readUntil("CAP END") {
+			c.R.Mismatch("tagsqueue.setup", hin, "no CAP END", "")
+			return
+		}
+		write(":srv 001 me :Welcome")
+		write("PING :s1")
+		if !readUntil("PONG") {
+			c.R.Mismatch("tagsqueue.setup", hin, "no PONG", "")
+			return
+		}
+		// the peer stops reading: the first tagged line blocks in the socket write, the second waits in the queue
+		_ = cl.Cmd.SendRaw("@+a=b PRIVMSG #c :first (being written while the capability is still enabled)")
+		time.Sleep(20 * time.Millisecond)
+		_ = cl.Cmd.SendRaw("@+a=b PRIVMSG #c :second (queued)")
+		write(":srv CAP me DEL :message-tags")
+		for i := 0; i < 2000 && cl.HasCapability("message-tags"); i++ {
+			time.Sleep(time.Millisecond)
+		}
+		if cl.HasCapability("message-tags") {
+			c.R.Mismatch("tagsqueue.del_not_processed", hin, "HasCapability(message-tags) still true 2 s after CAP DEL", "")
+			return
+		}
+		_ = cl.Cmd.SendRaw("@+a=b PRIVMSG #c :third (sent after the deletion)")
+		var seen []string
+		for len(seen) < 3 {
+			srv.SetReadDeadline(time.Now().Add(3 * time.Second))
+			l, err := rd.ReadString('\n')
+			if err != nil {
+				break
+			}
+			l = strings.TrimRight(l, "\r\n")
+			if strings.Contains(l, "PRIVMSG #c") {
+				seen = append(seen, l)
+			}
+		}
+		for i, l := range seen {
+			if i >= 1 && strings.HasPrefix(l, "@") {
+				c.R.Violation("c08.tags_after_del_queued", hin, l, strings.TrimPrefix(l[strings.Index(l, " ")+1:], ""),
+					"a line written after message-tags had been deleted (HasCapability already false) still carries tags")
+			}
+		}
+		if len(seen) < 3 {
+			c.R.Mismatch("tagsqueue.lines", hin, fmt.Sprint(seen), "three PRIVMSG lines")
+		}
+		c.R.Count("tagsqueue", true, "tags-queue")
+	}
+}
